@@ -99,6 +99,50 @@ def term_targets(t):
     return []
 
 
+class Bodies(dict):
+    """Function bodies by path.  A lookup by a path that is not present falls back to the unique crate-local body with the same
+    item path below the module segments: a private function moved to another module of the crate is still found (a renamed one
+    is not: the rules then report the anchor as lost)."""
+
+    def _resolve(self, key):
+        if not isinstance(key, str) or '{closure' in key or 'promoted' in key:
+            return None
+        from pat import local_tail
+        t = local_tail(key)
+        if t is None:
+            return None
+        idx = self.__dict__.get('_tails')
+        if idx is None or self.__dict__.get('_n') != len(self):
+            idx = {}
+            for k in dict.keys(self):
+                if '{closure' in k:
+                    continue
+                kt = local_tail(k)
+                if kt is not None:
+                    idx.setdefault(kt, []).append(k)
+            self.__dict__['_tails'] = idx
+            self.__dict__['_n'] = len(self)
+        c = idx.get(t, [])
+        return c[0] if len(c) == 1 else None
+
+    def get(self, key, default=None):
+        if dict.__contains__(self, key):
+            return dict.__getitem__(self, key)
+        k = self._resolve(key)
+        return dict.__getitem__(self, k) if k is not None else default
+
+    def __getitem__(self, key):
+        if dict.__contains__(self, key):
+            return dict.__getitem__(self, key)
+        k = self._resolve(key)
+        if k is None:
+            raise KeyError(key)
+        return dict.__getitem__(self, k)
+
+    def __contains__(self, key):
+        return dict.__contains__(self, key) or self._resolve(key) is not None
+
+
 class Facts:
     def __init__(self, path):
         with open(path) as f:
@@ -109,7 +153,7 @@ class Facts:
         self.adts = {a['path']: a for a in d['adts']}
         self.aliases = {a['path']: a for a in d['aliases']}
         self.fns = {f['path']: f for f in d['fns']}
-        self.bodies = {}
+        self.bodies = Bodies()
         for b in d['bodies']:
             self.bodies[b['path']] = Body(b)
 
